@@ -476,7 +476,14 @@ def gen_world(rng, flags=None, country="us"):
             # crypto-to-crypto trades: the two legs are rows of two assets at one instant (usually exported with different offsets)
             aflags["instant_pool"] = sorted(instant_pool)
             start_year = min(start_year, instant_pool[0].year)
-        seq = gen_asset_rows(rng, asset, exchanges, holders, aflags, start_year)
+        asset_holders = holders
+        if flags.get("holder_per_asset") and len(holders) > 1:
+            # every asset belongs to one of the joint filers only (and is often sold out completely)
+            asset_holders = [holders[len(sheets) % len(holders)]]
+            if rng.random() < 0.6:
+                aflags["sell_all"] = True
+                aflags.pop("income_only", None)
+        seq = gen_asset_rows(rng, asset, exchanges, asset_holders, aflags, start_year)
         instant_pool.extend(parse_ts(r["timestamp"]).astimezone(UTC) for _, r in seq)
         tables = {"IN": [], "OUT": [], "INTRA": []}
         for table, row in seq:
